@@ -341,8 +341,7 @@ func (cd *codec) follow(r *Result, names map[ssa.Value]string, depth int) *Resul
 	}
 	t.tables = cd.tables
 	bind := map[ssa.Value]constant.Value{}
-	subst := map[ssa.Value]aff{}
-	ssub := map[ssa.Value]string{}
+	child := newTB(nil)
 	for i, a := range call.Common().Args {
 		if i >= len(cal.Params) {
 			break
@@ -351,18 +350,16 @@ func (cd *codec) follow(r *Result, names map[ssa.Value]string, depth int) *Resul
 		if l := r.get(a); l.k == cst && !l.nilc && l.tbl == nil && l.v != nil && l.v.Kind() != constant.Unknown {
 			bind[p] = l.v
 		}
-		if isIntegerType(a.Type()) {
-			subst[p] = t.term(a)
-		} else if b, ok := a.Type().Underlying().(*types.Basic); ok && b.Info()&types.IsBoolean != 0 {
-			if n, ok := t.names[a]; ok {
-				ssub[p] = n
-			}
-		} else {
-			ssub[p] = t.sliceTerm(a)
-		}
+		t.bindArg(child, p, a, t.sliceTerm)
 	}
 	sub := specializeAt(cal, bind, cd.tables, depth+1)
-	sub.Subst, sub.SSub = subst, ssub
+	// unnamed booleans stay unnamed in the callee
+	for k, v := range child.ssub {
+		if v == "?bool" {
+			delete(child.ssub, k)
+		}
+	}
+	sub.Subst, sub.SSub, sub.FSub, sub.FSSub = child.subst, child.ssub, child.fsub, child.fssub
 	cd.mu.Lock()
 	cd.followed[cal] = true
 	cd.mu.Unlock()
